@@ -9,6 +9,7 @@ import (
 	"sync"
 
 	"github.com/bufbuild/buf/private/bufpkg/bufimage"
+	"github.com/bufbuild/buf/private/bufpkg/bufmodule/bufmoduletesting"
 	"github.com/bufbuild/buf/private/bufpkg/bufimage/bufimageutil"
 	"github.com/bufbuild/verifharness/internal/bufx"
 	"github.com/bufbuild/verifharness/internal/reg"
@@ -24,6 +25,10 @@ type caseRec struct {
 	Exclude       []string `json:"exclude"`
 	CustomOptions bool     `json:"customOptions"`
 	KnownExt      bool     `json:"knownExt"`
+	// LibImport: c.proto and e.proto are imports of the image (a module that is not targeted)
+	LibImport bool `json:"libImport"`
+	// Optional: elements of imports that may survive an exclude-only filter although nothing needs them
+	Optional []string `json:"optional"`
 	Conflict      bool     `json:"conflict"`
 	Survive       []string `json:"survive"`
 	Shells        []string `json:"shells"`
@@ -52,6 +57,7 @@ var fullName = map[string]string{
 	"Far": "pkg.Svc.Far", "Remote": "pkg.Remote",
 	"ChainVal": "pkg.ChainVal", "ext_chain": "pkg.ext_chain", "ext_leaf": "pkg.ext_leaf",
 	"First": "pkg.First", "Nested1": "pkg.First.Nested1",
+	"RemoteExtra": "pkg.RemoteExtra", "Deep": "pkg.Deep",
 }
 
 var sources = map[string]string{
@@ -157,10 +163,24 @@ service Svc {
 `,
 	"c.proto": `syntax = "proto2";
 package pkg;
+import "e.proto";
 // c:pkg.Remote
 message Remote {
   // c:pkg.Remote.r
   optional string r = 1;
+}
+// c:pkg.RemoteExtra
+message RemoteExtra {
+  // c:pkg.RemoteExtra.deep
+  optional Deep deep = 1;
+}
+`,
+	"e.proto": `syntax = "proto2";
+package pkg;
+// c:pkg.Deep
+message Deep {
+  // c:pkg.Deep.dp
+  optional string dp = 1;
 }
 `,
 	"d.proto": `syntax = "proto2";
@@ -371,6 +391,26 @@ func run(in []byte) (*reg.Result, error) {
 	if err != nil {
 		return nil, err
 	}
+	// the same schema with c.proto and e.proto in a module that is not targeted
+	libFiles, mainFiles := map[string][]byte{}, map[string][]byte{}
+	for p, src := range sources {
+		if p == "c.proto" || p == "e.proto" {
+			libFiles[p] = []byte(src)
+		} else {
+			mainFiles[p] = []byte(src)
+		}
+	}
+	ms, err := bufx.ModuleSet(
+		bufmoduletesting.ModuleData{Name: "buf.test/verif/lib", PathToData: libFiles, NotTargeted: true},
+		bufmoduletesting.ModuleData{Name: "buf.test/verif/main", PathToData: mainFiles},
+	)
+	if err != nil {
+		return nil, err
+	}
+	baseLib, err := bufx.BuildImageForModuleSet(ctx, ms)
+	if err != nil {
+		return nil, err
+	}
 	orig := collect(base)
 	if inp.Corrupt {
 		for i := range inp.Cases {
@@ -393,6 +433,10 @@ func run(in []byte) (*reg.Result, error) {
 			for i := wk; i < len(inp.Cases); i += workers {
 				c := inp.Cases[i]
 				for _, inPlace := range []bool{false, true} {
+					base := base
+					if c.LibImport {
+						base = baseLib
+					}
 					img, err := bufimage.CloneImage(base)
 					if err != nil {
 						emu.Lock()
@@ -407,8 +451,11 @@ func run(in []byte) (*reg.Result, error) {
 					} else if len(c.Exclude) == 0 {
 						kind = "include-only"
 					}
-					caseInfo := map[string]any{"include": names(c.Include), "exclude": names(c.Exclude), "custom_options": c.CustomOptions, "known_extensions": c.KnownExt, "in_place": inPlace}
+					caseInfo := map[string]any{"include": names(c.Include), "exclude": names(c.Exclude), "custom_options": c.CustomOptions, "known_extensions": c.KnownExt, "in_place": inPlace, "lib_files_are_imports": c.LibImport}
 					sig := fmt.Sprintf("%s/include=%s/exclude=%s", kind, strings.Join(names(c.Include), ","), strings.Join(names(c.Exclude), ","))
+					if c.LibImport {
+						sig += "/lib-files-as-imports"
+					}
 					out, err := bufimageutil.FilterImage(img, filterOpts(c, inPlace)...)
 					if !inPlace {
 						// a copying filter leaves its input as it was (descriptors and source info): the next filter or
@@ -491,6 +538,20 @@ func run(in []byte) (*reg.Result, error) {
 						}
 					}
 					want := names(c.Survive)
+					if len(c.Optional) > 0 {
+						// elements of imports that nothing needs may survive an exclude-only filter: drop them from the comparison
+						optional := map[string]bool{}
+						for _, n := range names(c.Optional) {
+							optional[n] = true
+						}
+						var kept []string
+						for _, n := range gotNames {
+							if !optional[n] {
+								kept = append(kept, n)
+							}
+						}
+						gotNames = kept
+					}
 					if strings.Join(gotNames, ",") != strings.Join(want, ",") {
 						esig := "elements/" + sig
 						for _, x := range c.Exclude {
